@@ -83,6 +83,22 @@ func (c *Ctx) backendNamesUnique() {
 				} else {
 					eqSucc = b.Succs[0]
 				}
+			} else if usesName {
+				// a set of taken names kept next to the pool: the helper looks the name up in a map of
+				// the balancer and answers a constant on the "taken" edge; removal has to delete from
+				// that map, or a removed name could never be registered again
+				if ok, takenReturns, field := helperLooksNameUp(p, h); ok {
+					if !removalDeletesFrom(p, field) {
+						c.Fail("backend-names-unique", construct, p.InstrPos(ifi), "names are tracked in "+field+" but RemoveBackend never deletes from it: the set and the pool drift apart")
+						return
+					}
+					test, viaHelper = ifi, h
+					if takenReturns != neg {
+						eqSucc = b.Succs[0]
+					} else {
+						eqSucc = b.Succs[1]
+					}
+				}
 			}
 		}
 	}
@@ -215,4 +231,65 @@ func helperFindsName(p *Program, h *ssa.Function) bool {
 		}
 	}
 	return false
+}
+
+// helperLooksNameUp: h tests `_, taken := lb.<map>[param]` on a map field of the balancer and returns
+// a boolean constant on the taken edge; reports that constant and the field.
+func helperLooksNameUp(p *Program, h *ssa.Function) (ok bool, takenReturns bool, field string) {
+	for _, b := range h.Blocks {
+		ifi, isIf := b.Instrs[len(b.Instrs)-1].(*ssa.If)
+		if !isIf {
+			continue
+		}
+		ex, isEx := ifi.Cond.(*ssa.Extract)
+		if !isEx || ex.Index != 1 {
+			continue
+		}
+		lk, isLk := ex.Tuple.(*ssa.Lookup)
+		if !isLk || !lk.CommaOk {
+			continue
+		}
+		if _, isPrm := lk.Index.(*ssa.Parameter); !isPrm {
+			continue
+		}
+		d := p.Desc(lk.X, nil)
+		if !strings.HasPrefix(d, "fld:loadbalancer.LoadBalancer.") {
+			continue
+		}
+		for _, in := range b.Succs[0].Instrs {
+			if ret, isRet := in.(*ssa.Return); isRet && len(ret.Results) == 1 {
+				if k, isC := ret.Results[0].(*ssa.Const); isC && k.Value != nil {
+					return true, k.Value.String() == "true", strings.TrimPrefix(d, "fld:")
+				}
+			}
+		}
+	}
+	return false, false, ""
+}
+
+// removalDeletesFrom: RemoveBackend (or a balancer helper it calls) deletes from the map field.
+func removalDeletesFrom(p *Program, field string) bool {
+	rb := p.Fn("internal/loadbalancer", "LoadBalancer", "RemoveBackend")
+	if rb == nil {
+		return false
+	}
+	found := false
+	seen := map[*ssa.Function]bool{}
+	var visit func(f *ssa.Function, d int)
+	visit = func(f *ssa.Function, d int) {
+		if f == nil || seen[f] || d > 2 || f.Blocks == nil {
+			return
+		}
+		seen[f] = true
+		for _, ci := range callsIn(f) {
+			if CalleeName(ci) == "builtin:delete" && strings.Contains(p.Desc(ci.Common().Args[0], nil), "fld:"+field) {
+				found = true
+			}
+			if g := StaticFn(ci); g != nil && g.Signature.Recv() != nil && QualType(namedOf(g.Signature.Recv().Type())) == "loadbalancer.LoadBalancer" {
+				visit(g, d+1)
+			}
+		}
+	}
+	visit(rb, 0)
+	return found
 }
